@@ -54,10 +54,18 @@ def parsed_rows(d, sym):
 
 def gen_files(rng, syms, d0):
     files = {}
+    prev_days = None
+    same_span = rng.random() < 0.3
     for s in syms:
         n = rng.choice([1, 1, 2, 3, 5, 8, 13, 25, 40]) if rng.random() < 0.9 else rng.randint(1, 40)
         off = rng.choice([0, 0, 3, 10, 20])             # assets starting on different dates
         days = sorted(rng.sample(range(off, off + 70), min(n, 60)))
+        if same_span and prev_days is not None and len(prev_days) >= 4:
+            # the same first bar, last bar and number of bars as the previous asset, but other sessions missing in between
+            inner = list(range(prev_days[0] + 1, prev_days[-1]))
+            if len(inner) >= len(prev_days) - 2:
+                days = sorted([prev_days[0], prev_days[-1]] + rng.sample(inner, len(prev_days) - 2))
+        prev_days = days
         rows = []
         for k in days:
             miss = rng.random()
